@@ -30,12 +30,19 @@ def run(chk, tier, seed):
             sub = os.path.join(scratch, "j%d" % (i % 32), str(i))
             os.makedirs(sub, exist_ok=True)
             evs = []
+            rs = []
             for j, c in enumerate(discread.concretise(cases[k], sub, "c%d" % i, with_low=(i % 3 == 0))):
-                evs += discread.observe_read(dfs, c, sub, i * 10 + j)
+                evs += discread.observe_read(dfs, c, sub, i * 10 + j, rs=rs if (tier != "quick" or i % 4 == 0) else None)
             import shutil
             shutil.rmtree(sub, ignore_errors=True)
-            return evs
-        allev = [e for evs in common.pmap(do, list(enumerate(keys))) for e in evs]
+            return evs, rs
+        both = common.pmap(do, list(enumerate(keys)))
+        allev = [e for evs, _ in both for e in evs]
+        # ReadStack.tla: the same reads seen from inside - every layer's event replayed through the specification: the body read stays
+        # inside the entry and the volume (Volume::Access refuses at the volume's length), the view computes the specified position
+        import readtrace
+        rs_runs = [r_ for _, rs in both for r_ in rs]
+        readtrace.validate(chk, rs_runs, scratch, "readstack")
         for e in allev:
             if e["e"] != "read":
                 continue
@@ -79,6 +86,7 @@ def run(chk, tier, seed):
                              err=1 if o.err.strip() else 0, clean=o.ok_alphabet()))
             chk.case((kind, "hdfs-claim", "extract-unused"))
         allev += conf
+        opus_tables(chk, dfs, scratch, tier)
         chk.sample(allev[len(allev) // 2])
         chk.sample(allev[-1])
 
@@ -92,6 +100,71 @@ def run(chk, tier, seed):
                        len(e["segs"]), e["foreign"], e["segs"][-3:]), e)
         discread.judge(chk, allev, scratch, describe)
         chk.traces += len(keys)
+
+
+def opus_tables(chk, dfs, scratch, tier):
+    """OpusTable.tla: every start-track table over the model's values (volumes in any track order, one-track volumes, a volume
+    ending at the end of the disc): one disc per self-consistent table, in every volume a file that ends on the volume's last
+    sector and one that reaches one sector past it; the reads are judged by TraceOpusTable.tla and their hook events by
+    TraceReadStack.tla with the extents the requirement defines as context."""
+    import mkdisc, readtrace
+    r = common.tlc("OpusTable", "OpusTable.cfg")
+    chk.add_tlc("OpusTable.cfg", r)
+    if r.violated:
+        chk.violation("model:" + r.violated, "OpusTable.tla: %s\n%s" % (r.violated, "\n".join(r.cex[:30])), dict(spec="OpusTable.tla"))
+    cases = sorted({json.dumps(c, sort_keys=True): c for c in r.cases}.values(), key=lambda c: json.dumps(c, sort_keys=True))
+    good = [c for c in cases if c["ok"]]
+    if tier == "quick":
+        good = [c for i, c in enumerate(good) if i % 2 == 0 or len(c["vols"]) >= 3]
+    salt = 77
+
+    def do(ic):
+        i, c = ic
+        vols = []
+        for k, x in enumerate(c["vols"]):
+            L = min(x["len"], 1023)            # start sectors are 10-bit fields
+            ents = [mkdisc.entry("OVER", length=512, start=L - 1), mkdisc.entry("F", length=3 * 256 - 7, start=L - 4), mkdisc.entry("LOW", length=100, start=0)]
+            vols.append(dict(letter="ABCDEFGH"[k], start_track=c["table"][k], title=b"VOL" + bytes([65 + k]), entries=ents, total=L))
+        img = mkdisc.surface_opus(80, salt, vols)
+        path = mkdisc.write(os.path.join(scratch, "ot%d.sdd" % i), bytes(img))
+        st = mkdisc.Stamps()
+        st.add(salt, 1440)
+        evs, rs = [], []
+        for k, x in enumerate(c["vols"]):
+            L = min(x["len"], 1023)
+            for nm, want in (("F", [L - 4, L - 3, L - 2]), ("OVER", [L - 1, L]), ("LOW", [0])):
+                o, tev = readtrace.record([dfs, "--file", path, "type", "--binary", ":0%s.$.%s" % ("ABCDEFGH"[k], nm)], scratch, "ot%d-%d%s" % (i, k, nm),
+                                          ctx=dict(kind="plain1", cyl=80, spt=18, vols=[[v["origin"], v["len"]] for v in c["vols"]]))
+                lbas, foreign = [], 0
+                for sg in st.segments(o.out, salt, x["origin"] + want[0]):
+                    if sg is None or sg[0] != salt:
+                        foreign += 1
+                    else:
+                        lbas.append(sg[1])
+                evs.append(dict(e="opus", table=c["table"], i=k + 1, name=nm, want=want, lbas=lbas, foreign=foreign, rc=o.rc if o.rc is not None else -9,
+                                errempty=0 if o.err.strip() else 1, err=o.err.decode("latin1")[-120:]))
+                rs.append(("Opus table %r volume %s: type %s (rc=%s)" % (c["table"], "ABCDEFGH"[k], nm, o.rc), tev))
+        os.unlink(path)
+        return evs, rs
+    both = common.pmap(do, list(enumerate(good)))
+    events = [e for evs, _ in both for e in evs]
+    for e in events:
+        chk.case(("opus-table", tuple(e["table"]), e["i"], e["name"]))
+    trace = os.path.join(scratch, "opus-trace.ndjson")
+    with open(trace, "w") as f:
+        for e in events:
+            f.write(json.dumps(e) + "\n")
+    ok, tr = common.validate_trace("TraceOpusTable", "TraceOpusTable.cfg", trace, timeout=1200)
+    chk.add_tlc("TraceOpusTable", tr)
+    chk.traces += len(events)
+    if not ok or not tr.verdicts:
+        raise common.MachineryError("TraceOpusTable did not consume the whole trace:\n" + tr.output[-3000:])
+    for ln in sorted(tr.verdicts[-1]["bad"]):
+        e = events[ln - 1]
+        chk.violation("opus-table:%s" % e["name"], "Opus volume table %r, volume %s, `type %s` (sectors %r of the volume): rc=%s, delivered image sectors %r, %d foreign "
+                      "chunks, stderr %r" % (e["table"], "ABCDEFGH"[e["i"] - 1], e["name"], e["want"], e["rc"], e["lbas"], e["foreign"], e["err"]), dict(event=e))
+    readtrace.validate(chk, [r_ for _, rs in both for r_ in rs], scratch, "readstack-opus")
+    chk.extra["opus_tables"] = len(good)
 
 
 def replay(chk, path):
